@@ -94,6 +94,9 @@ fn write_point(
     } else {
         0x01 | (r.u8() & 0x1E)
     };
+    // the flags an application hands over for the binary types may carry stale state bits (e.g. a gateway writing back the
+    // flags octet it received): the state on the wire is the value's, never these bits
+    let stale: u8 = if r.chance(1, 3) { r.u8() & 0xC0 } else { 0 };
     let tm = Time::synchronized(time);
     // one update in three leaves it to the library to decide whether the change is an event (values come back to earlier
     // ones for the binary types, so "same as the value last reported" and "same as the previous value" differ)
@@ -119,7 +122,7 @@ fn write_point(
             let v = forced.map(|x| x != 0.0).unwrap_or(c % 2 == 0);
             h.num = v as u8 as f64;
             h.flags = (raw_flags & 0x7F) | ((v as u8) << 7);
-            db.update2(i, &BinaryInput::new(v, Flags::new(raw_flags), tm), opt)
+            db.update2(i, &BinaryInput::new(v, Flags::new(raw_flags | (stale & 0x80)), tm), opt)
         }
         1 => {
             let v = (c % 4) as u8;
@@ -133,7 +136,7 @@ fn write_point(
             ][v as usize];
             db.update2(
                 i,
-                &DoubleBitBinaryInput::new(d, Flags::new(raw_flags), tm),
+                &DoubleBitBinaryInput::new(d, Flags::new(raw_flags | stale), tm),
                 opt,
             )
         }
@@ -143,7 +146,7 @@ fn write_point(
             h.flags = (raw_flags & 0x7F) | ((v as u8) << 7);
             db.update2(
                 i,
-                &BinaryOutputStatus::new(v, Flags::new(raw_flags), tm),
+                &BinaryOutputStatus::new(v, Flags::new(raw_flags | (stale & 0x80)), tm),
                 opt,
             )
         }
